@@ -178,3 +178,275 @@ def validate_traces(wd, trace_path, nodes=NODES4, fix=FIXED, name="T", timeout=1
                 matched, total = int(parts[1]), int(parts[2])
     accepted = (not r.postcondition_failed) and r.violated is None and matched == total and total >= 0
     return accepted, matched, total, r
+
+
+# ------------------------------------------------------------------------------------------------
+# families of cases
+
+def all_roots(nodes):
+    return [list(nodes), list(reversed(nodes))] + [[n] for n in nodes]
+
+
+def pan_sets(g, nodes, max_size):
+    out = [[]]
+    for k in range(1, max_size + 1):
+        for ps in itertools.combinations(nodes, k):
+            if panic_ok(g, ps):
+                out.append(list(ps))
+    return out
+
+
+def fam_c34(graphs, nodes, pars, batch_variants, max_pan, roots_list, two_run=True):
+    """C34: every graph (cycles, self-loops) x panicking set x parallelism; a single Run, and - because 'a run
+    returns' and 'is not cached' are statements about what comes next - the same Run again after a panic."""
+    cases = []
+    for g in graphs:
+        for bat in batchings(g, batch_variants):
+            for pan in pan_sets(g, nodes, max_pan):
+                for par in pars:
+                    for roots in roots_list:
+                        plan = [run(roots)]
+                        if pan and two_run:
+                            plan = [run(roots), run(roots)]
+                        cases.append({"bat": bat, "pan": pan, "par": par, "plan": plan})
+    return cases
+
+
+def fam_c33_seq(graphs, nodes, pars, batch_variants, plans):
+    cases = []
+    for g in graphs:
+        for bat in batchings(g, batch_variants):
+            for par in pars:
+                for plan in plans:
+                    cases.append({"bat": bat, "pan": [], "par": par, "plan": plan})
+    return cases
+
+
+def c33_plans(nodes, rich):
+    a, c = nodes[0], nodes[-1]
+    allr, rev = list(nodes), list(reversed(nodes))
+    plans = [
+        [run(allr), evict(c), run(rev)],                        # evict a leaf: everything above recomputes
+        [run([a]), evict(a), run(allr), evict(nodes[1]), run([a])],
+        [run(allr, rev), evict(c), run([a], rev)],              # two concurrent runs, twice
+        [run([a]), evict(c, conc=True), run(allr)],             # Evict overlapping a Run
+    ]
+    if rich:
+        plans += [
+            [run(rev), evict(nodes[1]), run(allr), evict(a, c), run(rev)],
+            [run([a], [c]), evict(a), run(allr, allr)],
+            [run(allr), evict(nodes[1], conc=True), run(rev), evict(c, conc=True), run(allr)],
+            [run([c]), run(allr), evict(c), evict(a), run([a], [nodes[1]])],
+        ]
+    return plans
+
+
+def dedup(cases):
+    seen, out = set(), []
+    for c in cases:
+        k = json.dumps(c, sort_keys=True)
+        if k not in seen:
+            seen.add(k)
+            out.append(c)
+    return out
+
+
+def has_conc_evict(cfg):
+    return any(o["op"] == "evict" and o.get("conc") for o in cfg["plan"])
+
+
+# ------------------------------------------------------------------------------------------------
+
+class Acc:
+    """What one check measured."""
+    def __init__(self):
+        self.states = self.trans = 0
+        self.mc_runs = []
+        self.cases = self.executions = self.hangs = 0
+        self.traces = self.events = 0
+        self.samples = []
+        self.features = set()
+        self.selftests = []
+
+
+def model_check(wd, name, nodes, cases, acc, workers, liveness=True, timeout=1200, export_sink=None):
+    mod, cfg = write_mc(wd, name, nodes, cases, liveness=liveness)
+    r = vf.tlc(mod, cfg, wd, workers=workers, timeout=timeout, case_sink=export_sink)
+    if r.violated:
+        raise vf.MachineryError(
+            "spec-level: IncExec (model of the fixed tree) violates %s on family %s (%d cases); see %s - "
+            "not a verdict about the code until reproduced on the executor" % (r.violated, name, len(cases), r.stdout_path))
+    acc.states += r.distinct
+    acc.trans += r.generated
+    acc.mc_runs.append({"family": name, "cases": len(cases), "distinct": r.distinct, "generated": r.generated,
+                        "liveness": liveness, "wall_s": round(r.wall, 1)})
+    return r
+
+
+def export_cases(wd, name, nodes, cases):
+    """Oracle expectations for cases that are only replayed (not model-checked interleaving by interleaving)."""
+    mod, cfg = write_mc(wd, name, nodes, cases, only_init=True)
+    r = vf.tlc(mod, cfg, wd, workers=1, timeout=900)
+    if r.violated:
+        raise vf.MachineryError("export of %s failed: %s" % (name, r.violated))
+    return r.cases
+
+
+def feature(c):
+    cfg = c["cfg"]
+    g = {n: [d for b in bs for d in b] for n, bs in cfg["bat"].items()}
+    cyc = any(on_cycle(g, n) for n in g)
+    nrun = sum(len(o["roots"]) for o in cfg["plan"] if o["op"] == "run")
+    return (len([n for n in g if g[n] or any(n in v for v in g.values())]), sum(len(v) for v in g.values()), cyc,
+            len(cfg["pan"]), cfg["par"], len(cfg["plan"]), nrun, has_conc_evict(cfg),
+            max([len(b) for bs in cfg["bat"].values() for b in bs] or [0]))
+
+
+def drive(wd, binary, name, cases, reps, verdict, acc, trace=True, max_traces=None, watchdog=4000):
+    """Direction A on the real executor; returns the path of the recorded traces."""
+    for i, c in enumerate(cases):
+        c["id"] = i + 1
+        if has_conc_evict(c["cfg"]):
+            c["hold"] = "evict-after-collect"
+    cpath = os.path.join(wd, "cases_%s.jsonl" % name)
+    rpath = os.path.join(wd, "results_%s.jsonl" % name)
+    tpath = os.path.join(wd, "traces_%s.ndjson" % name)
+    vf.jsonl_write(cpath, cases)
+    args = ["-cases", cpath, "-out", rpath, "-seed", str(vf.seed()), "-reps", str(reps), "-watchdog", str(watchdog)]
+    if trace:
+        args += ["-trace", tpath]
+        if max_traces:
+            args += ["-maxtraces", str(max_traces)]
+    rc, _out, err = vf.run_driver(binary, args, timeout=3000)
+    if rc != 0:
+        raise vf.MachineryError("incexec driver failed rc=%s: %s" % (rc, err[-3000:]))
+    for line in err.splitlines():
+        if line.startswith("STATS"):
+            kv = dict(x.split("=") for x in line.split()[1:])
+            acc.traces += int(kv["traces"])
+            acc.events += int(kv["events"])
+    for res in vf.jsonl_read(rpath):
+        acc.executions += 1
+        acc.hangs += 1 if res.get("hang") else 0
+        case = cases[res["id"] - 1]
+        for m in res.get("mismatches") or []:
+            verdict.disagree(m["class"], {"cfg": case["cfg"], "exp": case["exp"], "order": case["order"],
+                                          "hold": case.get("hold", ""), "step": m["step"]}, m["detail"])
+    acc.cases += len(cases)
+    for c in cases:
+        acc.features.add(feature(c))
+    for c in cases:
+        if len(acc.samples) < 3 and (c["cfg"]["pan"] or len(c["cfg"]["plan"]) > 2):
+            acc.samples.append({"cfg": c["cfg"], "exp": c["exp"]})
+    return tpath if trace else None
+
+
+def first_unmatched(trace_path, matched):
+    """The header of the trace in which validation stopped, and the first unmatched event."""
+    hdr, evn = None, None
+    with open(trace_path) as fh:
+        for i, line in enumerate(fh, 1):
+            if '"ev":"case"' in line and i <= matched + 1:
+                hdr = json.loads(line)
+            if i == matched + 1:
+                evn = json.loads(line)
+                break
+    return hdr, evn
+
+
+def check_traces(wd, tpath, nodes, verdict, acc, name):
+    if not tpath or not os.path.exists(tpath) or os.path.getsize(tpath) == 0:
+        raise vf.MachineryError("no traces recorded for " + name)
+    ok, matched, total, r = validate_traces(wd, tpath, nodes=nodes, name=name)
+    acc.states += r.distinct
+    acc.trans += r.generated
+    if ok:
+        return
+    if matched < 0:
+        raise vf.MachineryError("trace validation did not report a high-water mark: " + r.stdout_path)
+    hdr, evn = first_unmatched(tpath, matched)
+    verdict.disagree("trace-rejected:" + (evn or {}).get("ev", "end-of-trace"),
+                     {"cfg": (hdr or {}).get("cfg"), "order": (hdr or {}).get("order"), "matched_events": matched,
+                      "first_unmatched": evn},
+                     "the recorded execution is not a behaviour of IncExec (with its properties) from this event on")
+
+
+def binding_selftests(wd, tpath, nodes, acc):
+    """The binding must reject a corrupted trace: change one logged field; drop one event."""
+    lines = open(tpath).read().splitlines()
+    # keep the first few traces only
+    heads = [i for i, l in enumerate(lines) if '"ev":"case"' in l]
+    lines = lines[:heads[min(6, len(heads) - 1)]] if len(heads) > 6 else lines
+    closes = [i for i, l in enumerate(lines) if '"ev":"close"' in l and '"f":"none"' in l]
+    wins = [i for i, l in enumerate(lines) if '"ev":"cas.win"' in l]
+    if not closes or not wins:
+        raise vf.MachineryError("self-test: no close / cas.win event to corrupt")
+    for nm, mut in (("corrupt-value", "v"), ("drop-event", "d")):
+        ls = list(lines)
+        if mut == "v":
+            e = json.loads(ls[closes[len(closes) // 2]])
+            e["v"] = e["v"] + 1
+            ls[closes[len(closes) // 2]] = json.dumps(e, separators=(",", ":"))
+        else:
+            del ls[wins[len(wins) // 2]]
+        p = os.path.join(wd, "selftest_%s.ndjson" % nm)
+        with open(p, "w") as fh:
+            fh.write("\n".join(ls) + "\n")
+        ok, matched, total, _r = validate_traces(wd, p, nodes=nodes, name="self_" + nm.replace("-", "_"))
+        acc.selftests.append({"test": nm, "rejected": not ok, "matched": matched, "total": total})
+        if ok:
+            raise vf.MachineryError("binding self-test %s: corrupted trace was accepted" % nm)
+
+
+WORKERS = int(os.environ.get("VERIF_TLC_WORKERS", "8"))
+
+ASSUMPTIONS = [
+    "IncExec.tla models the executor at the granularity of its bracketed critical sections; the cycle search and the "
+    "edge stores of one Resolve are atomic steps (under the verif tag they are serialised by the hook lock, so the "
+    "traced executions have exactly this granularity; the untagged build can interleave inside them)",
+    "queries are deterministic nodes of a static graph that resolve every dependency batch, propagate the first Fatal "
+    "of their dependencies, return a Resolve error at once, and panic (if panicking) after their last batch",
+    "a panicking query is never on a cycle or below one (the two clauses of C34 conflict there); concurrent Runs are "
+    "explored without panicking queries (a leader panic seen from a different Run is outside both quantifiers)",
+    "a concurrent Evict is explored only in the linearisation Run-then-Evict, forced on the real executor by a gate",
+    "task objects are identified with their keys: goroutines that outlive an eviction are excluded by fix F5",
+    "TLC, the CommunityModules Json module, the Go runtime's goroutine dump (watchdog) are trusted",
+]
+
+
+def shapes(names):
+    return [SHAPES3[n] for n in names]
+
+
+def families(pid, tier, rng):
+    """-> (model-checked families [(name, nodes, cases, liveness)], replay-only families [(name, nodes, cases)])."""
+    dag3 = [g for g in digraphs(NODES3, loops=False) if is_dag(g)]
+    all3 = digraphs(NODES3, loops=True)
+    mc, ro = [], []
+    if pid == "C33":
+        if tier == "quick":
+            mc.append(("c33seq", NODES3, fam_c33_seq(shapes(["diamond", "chain"]), NODES3, (1, 2), ["one"],
+                                                   c33_plans(NODES3, False)), False))
+            ro.append(("c33all", NODES3, fam_c33_seq(dag3, NODES3, (1, 2, 3), ["one", "single"], c33_plans(NODES3, False))))
+        else:
+            mc.append(("c33seq", NODES3, fam_c33_seq(dag3, NODES3, (1, 2, 3), ["one", "single"], c33_plans(NODES3, False)), False))
+            mc.append(("c33rich", NODES3, fam_c33_seq(shapes(["diamond", "chain", "fanin", "fanout"]), NODES3, (1, 2), ["one", "rev"],
+                                                    c33_plans(NODES3, True)[4:]), True))
+            dag4 = [g for g in digraphs(NODES4, loops=False) if is_dag(g)]
+            ro.append(("c33n4", NODES4, fam_c33_seq(rng.sample(dag4, min(60, len(dag4))), NODES4, (1, 2, 3), ["one", "single"],
+                                                   c33_plans(NODES4, True))))
+    else:
+        if tier == "quick":
+            canon = list(SHAPES3.values())
+            mc.append(("c34single", NODES3, fam_c34(canon, NODES3, (1, 2), ["one"], 0, [NODES3]), True))
+            mc.append(("c34panic", NODES3, fam_c34(shapes(["chain", "fanout", "2cycle", "selfloop-tail"]), NODES3, (1,), ["one"], 1,
+                                                  [NODES3]), True))
+            extra = rng.sample(all3, 12)
+            ro.append(("c34all", NODES3, fam_c34(canon + extra, NODES3, (1, 2, 3), ["one", "single"], 1, all_roots(NODES3)[:3])))
+        else:
+            mc.append(("c34single", NODES3, fam_c34(all3, NODES3, (1, 2, 3), ["one", "single"], 0, [NODES3]), True))
+            mc.append(("c34panic1", NODES3, fam_c34(all3, NODES3, (1,), ["one"], 1, [NODES3]), True))
+            mc.append(("c34panic2", NODES3, fam_c34(list(SHAPES3.values()), NODES3, (2, 3), ["one"], 2, [NODES3]), True))
+            ro.append(("c34all", NODES3, fam_c34(all3, NODES3, (1, 2, 3), ["one", "rev", "single"], 2, all_roots(NODES3)[:3])))
+            all4 = digraphs(NODES4, loops=True) if False else None
+    return [(n, nd, dedup(cs), lv) for n, nd, cs, lv in mc], [(n, nd, dedup(cs)) for n, nd, cs in ro]
